@@ -372,7 +372,63 @@ def run_meaning(case, out):
         out.label("op_" + k)
 
 
+# ---------------------------------------------------------------------------------------------------- + / - language
+
+def plusminus_strategy(tier):
+    item = st.tuples(st.sampled_from(["+", "-", "", ""]), st.sampled_from(MW[:5]))
+    return st.fixed_dictionaries({
+        "docs": st.lists(mdoc_s(), min_size=1, max_size=10),
+        "items": st.lists(item.map(list), min_size=1, max_size=6),
+        "parser": st.sampled_from(["simple", "dismax", "plugin"]),
+    })
+
+
+def run_plusminus(case, out):
+    """PlusMinusPlugin / SimpleParser / DisMaxParser: '+' marks required, '-' prohibited terms in a flat OR query"""
+    schema = fields.Schema(k=fields.ID(stored=True), t=fields.TEXT(analyzer=analysis.SpaceSeparatedTokenizer()))
+    ix = RamStorage().create_index(schema)
+    w = ix.writer()
+    docs = []
+    for i, d in enumerate(case["docs"]):
+        w.add_document(k="k%d" % i, t=" ".join(d["t"]))
+        docs.append(("k%d" % i, set(d["t"])))
+    w.commit()
+    qstring = " ".join(m + wd for m, wd in case["items"])
+    if case["parser"] == "simple":
+        parser = qparser.SimpleParser("t", schema)
+    elif case["parser"] == "dismax":
+        parser = qparser.DisMaxParser({"t": 1.0}, schema)
+    else:
+        parser = qparser.QueryParser("t", schema, group=qparser.OrGroup)
+        parser.add_plugin(qplugins.PlusMinusPlugin())
+    q = parser.parse(qstring)
+    req = set(wd for m, wd in case["items"] if m == "+")
+    ban = set(wd for m, wd in case["items"] if m == "-")
+    opt = set(wd for m, wd in case["items"] if m == "")
+    exp = set()
+    for k, toks in docs:
+        if toks & ban:
+            continue
+        if req:
+            if req <= toks:
+                exp.add(k)
+        elif opt and (toks & opt):
+            exp.add(k)
+    with ix.searcher() as s:
+        got = set(h["k"] for h in s.search(q, limit=None))
+    if not req and not opt:
+        out.exclude("only_prohibited_terms")  # nothing positive to match: meaning not defined by the docs
+        return
+    if got != exp:
+        out.fail("c16.plusminus_meaning", {"qstring": qstring, "parser": case["parser"], "parsed": repr(q)[:200],
+                                           "got": sorted(got), "expected": sorted(exp)})
+    out.nontrivial = bool(ban) and len(ban) >= 1 and 0 < len(exp) < len(docs)
+    if len(ban) >= 2:
+        out.label("two_prohibited")
+
+
 SUBS = {
+    "plusminus": Sub(run_plusminus, plusminus_strategy, quick=150, thorough=2000, quick_shards=8),
     "totality": Sub(run_totality, totality_strategy, quick=500, thorough=8000, quick_shards=8),
     "meaning": Sub(run_meaning, meaning_strategy, quick=150, thorough=3000, quick_shards=8),
 }
